@@ -158,6 +158,10 @@ func (e *exec) judgeImage(o Op, im *image, lower, upper *tsdbmodel.Model) {
 		lower.TagOOOHeadCells(tsdbmodel.TagWBLSkipped)
 	}
 	saved := e.dir
+	if debugOn {
+		os.RemoveAll("/dev/shm/verif-pre")
+		simfs.CopyTree(dir, "/dev/shm/verif-pre")
+	}
 	// IO hooks of the recovery run must not be attributed to the main data dir
 	db, _, err := e.open(dir)
 	if err != nil {
@@ -173,7 +177,23 @@ func (e *exec) judgeImage(o Op, im *image, lower, upper *tsdbmodel.Model) {
 	cut := replayCutoff(db)
 	lower.OpenCutoff, upper.OpenCutoff = cut, cut
 	tagAtRisk(db, lower)
-	ok := e.verify(db, lower, upper, "crash-recovery", where, math.MinInt64)
+	oracle := "crash-recovery"
+	if im.startup && strings.HasPrefix(im.site, "chunks.ChunkDiskMapper.deleteFiles") {
+		// listed finding: the start-up repair of head chunk files deletes them oldest first; a kill in the middle leaves
+		// the newer files, which then load cleanly and make the WAL replay skip the samples of the deleted files
+		e.res.Count("tolerated:"+TagRepairOrder, 1)
+		if e.cfg.KF != TagRepairOrder {
+			db.Close()
+			return
+		}
+		oracle = "crash-during-head-chunk-repair"
+	}
+	ok := e.verify(db, lower, upper, oracle, where, math.MinInt64)
+	if !ok && oracle == "crash-during-head-chunk-repair" {
+		if n := len(e.res.Violations); n > 0 && e.res.Violations[n-1].Signature == "missing" {
+			e.res.Violations[n-1].Signature = "known:" + TagRepairOrder
+		}
+	}
 	if !ok && debugOn {
 		keep := "/dev/shm/verif-keep"
 		os.RemoveAll(keep)
@@ -221,7 +241,20 @@ func (e *exec) judgeImage(o Op, im *image, lower, upper *tsdbmodel.Model) {
 		e.fail("crash-recovery-query-error", "query-error", "%s: query after second reopen failed: %v", where, err)
 		return
 	}
-	if d := diffResults(got, got2); d != "" && !tornWAL {
+	if d := diffResults(got, got2); d != "" && !tornWAL && e.cfg.Snapshot && e.onlyMultiRefSeriesDiffer(got, got2) {
+		// listed finding: m-mapped chunks written under a duplicate series ref are orphaned by a snapshot restart
+		e.res.Count("tolerated:"+TagDupRefSnapshot, 1)
+		if e.cfg.KF == TagDupRefSnapshot {
+			e.fail("crash-second-reopen", "known:"+TagDupRefSnapshot, "%s: data recovered after the crash changed after a further clean (snapshot) restart: %s", where, d)
+			return
+		}
+	} else if d2, _ := e.diffModuloCandidates(got, got2); d != "" && d2 != "" && !tornWAL {
+		if debugOn {
+			os.RemoveAll("/dev/shm/verif-keep")
+			simfs.CopyTree("/dev/shm/verif-pre", "/dev/shm/verif-keep")
+			fmt.Printf("DBG kept crash image (before recovery) in /dev/shm/verif-keep\nDBG state after the second reopen:\n")
+			dumpDB(db2)
+		}
 		e.fail("crash-second-reopen", "recovered-data-changed-after-reopen", "%s: data recovered after the crash changed after a further clean restart: %s", where, d)
 		return
 	}
@@ -229,6 +262,42 @@ func (e *exec) judgeImage(o Op, im *image, lower, upper *tsdbmodel.Model) {
 	if err != nil || len(pr[probe.String()]) != 1 || pr[probe.String()][0].F != 42 {
 		e.fail("crash-writable", "write-after-recovery-lost", "%s: sample written after recovery not kept across restart (got %v, err %v)", where, pr, err)
 	}
+}
+
+// TagRepairOrder is the known finding: when loading the head chunk files fails at start-up with an error that is not a
+// CorruptionErr (e.g. "out of sequence m-mapped chunk", which duplicate series refs produce), all head chunk files are
+// discarded with Truncate(MaxUint32), oldest first. A process kill in the middle leaves only newer files; the next start
+// loads them without error, takes their MaxTime as already persisted and skips the WAL samples of the deleted files.
+const TagRepairOrder = "kill-during-head-chunk-repair-leaves-newer-files-and-loses-wal-samples"
+
+// TagDupRefSnapshot is the known finding: after a WAL replay that met duplicate series records (a series garbage
+// collected and re-created under a new ref while the old record was still in the WAL) the surviving series keeps the
+// old ref, but its m-mapped chunks are stored under the newer ref. A chunk snapshot records the surviving ref only;
+// the next restart from that snapshot skips the WAL segment with the duplicate record, cannot map the chunk files'
+// ref to the series and drops those chunks.
+const TagDupRefSnapshot = "mmapped-chunks-of-duplicate-series-ref-lost-after-snapshot-restart"
+
+// onlyMultiRefSeriesDiffer reports whether every series on which a and b differ has been known under several refs.
+func (e *exec) onlyMultiRefSeriesDiffer(a, b qresult) bool {
+	multi := map[string]bool{}
+	for _, ms := range e.m.Series {
+		if ms.MultiRef || ms.GCd {
+			multi[ms.Labels.String()] = true
+		}
+	}
+	keys := map[string]bool{}
+	for k := range a {
+		keys[k] = true
+	}
+	for k := range b {
+		keys[k] = true
+	}
+	for k := range keys {
+		if diffResults(qresult{k: a[k]}, qresult{k: b[k]}) != "" && !multi[k] {
+			return false
+		}
+	}
+	return true
 }
 
 func siteClass(s string) string {
